@@ -782,14 +782,16 @@ static char hist_hash[8];
 static void used_read (FILE *out, const char *desc) {
   static const char *hists[] = {"S", "s", "b", "Sr", "rS", "bS", "Sb", "sw", "Swb", "rbS", "SoS", "bws", "Srw", hist_hash, NULL};
   static volatile int hi;
-  static int bad, us_bad;
+  static int bad, us_bad, big;
   uint32_t h = 2166136261u;
   size_t k = DLIST_LENGTH (MIR_module_t, *MIR_get_module_list (a));
   for (const char *p = desc; *p; p++) h = (h ^ (uint8_t) *p) * 16777619u;
   for (int i = 0, n = 3 + h % 4; i < n; i++, h /= 7) hist_hash[i] = "sSbrwo"[(h >> 3) % 6], hist_hash[i + 1] = 0;
   bad = us_bad = 0;
   hist_run = 0;
+  big = strlen (desc) > 40000;
   for (hi = 0; hists[hi] != NULL && !bad; hi++) {
+    if (big && hi >= 2 && hists[hi] != hist_hash) continue; /* a description of megabytes (buffer-size cases): three histories */
     hist_cur = hists[hi];
     hist_final = 0;
     u = MIR_init ();
